@@ -17,8 +17,9 @@ EXHAUSTIVE = {"quick": False, "thorough": False}
 SHARD = 6
 JOBS = 14
 COQ_IMPORTS = "From DS Require Import Model.ADD Spec.Count."
-TRUSTED = ["the theorem is about the loop model over the counting SPECIFICATION of C09; the ADD-based oracle is tied to "
-           "that specification by C09's per-instance check (and the C10 theorems), not by a theorem about compile()",
+TRUSTED = ["for rows needing several units the theorem is about the loop model over the counting SPECIFICATION of C09; the "
+           "ADD-based oracle equals that specification by C09_oracle_exact given a valid compiled diagram; compile()'s "
+           "leaf/factor case is validated per instance, not proved (chain case: proved end to end)",
            "scipy.special.comb exact at these sizes"]
 ASSUMPTIONS = ["pairwise distinct distances per validation point (the property specifies ties only for C01)",
                "positive conjunctive provenance, binary candidates"]
@@ -208,9 +209,12 @@ MANIFEST = {
             "coalition counts of C09's counting specification equals the Shapley value BY DEFINITION of the game v_knn "
             "(mean over validation points of the utility of the majority label, lowest class on ties, among the K "
             "nearest present rows; null when fewer than K rows are present); C02_add_point_is_shapley per validation "
-            "point, C02_rank_count (exactly one row of rank K), C02_max_cardinality. PARTIAL in one link only: that "
-            "the ADD-based oracle returns exactly those counts is C09 (correspondence evaluated per instance, plus the "
-            "C10 theorems), not yet a theorem about compile(). Tied to the code at API level on every run: "
+            "point, C02_rank_count (exactly one row of rank K), C02_max_cardinality; C02_add_chain_is_shapley -- END TO "
+            "END for chain-compiled provenance (every row needs one unit: one-unit-per-row and map/fork pipelines, >= 2 "
+            "units): the loop over the MODEL of the ADD-based oracle (compile, boundary diagrams, restrict, sum, "
+            "modelcount) is the Shapley value. PARTIAL in one link only: for rows needing several units (join) the "
+            "oracle is exact by C09_oracle_exact given a valid compiled diagram in unit order, but compile()'s "
+            "leaf/factor construction is validated per instance, not proved. Tied to the code at API level on every run: "
             "ShapleyImportance('neighbor', nn_k=K) on conjunctive provenance hypergraphs vs the loop model and vs the "
             "Shapley value by definition of the KNN game (rank-based and sort-based definitions), inside Coq; and vs "
             "'bruteforce' over KNeighborsClassifier(K).",
